@@ -143,6 +143,20 @@ fn fail(ctx: &mut Ctx, key: String, what: &str, detail: serde_json::Value) {
     ctx.oracle_fail(&key, what, detail);
 }
 
+/// `PrimeField::from_u128` (the `ff` default doubles 64 times — a chain of in-place operations
+/// of the wrapper): a panic is a failing input, not a crash of the harness.
+fn from_u128_case<F: PF>(ctx: &mut Ctx, nt: bool, w: u128) {
+    let n = F::NAME;
+    let line = format!("pf {n} reduce {}", big_hex(&BigUint::from(w)));
+    match catch(|| hx(&F::from_u128(w))) {
+        Ok(v) => ctx.case("from_u128", nt, &line, &v),
+        Err(e) => {
+            ctx.case("from_u128", nt, &line, "panic");
+            fail(ctx, format!("{n}:from_u128-panic:0x{w:x}"), "from_u128 panicked", json!({"field": n, "v": format!("0x{w:x}"), "panic": e}));
+        }
+    }
+}
+
 /// Operations every `ff::PrimeField` has.
 pub fn run_core<F: PF>(ctx: &mut Ctx) {
     let n = F::NAME;
@@ -287,11 +301,11 @@ pub fn run_core<F: PF>(ctx: &mut Ctx) {
             let hi = d.get(1).copied().unwrap_or(0);
             ctx.case("from_u64", nt, &format!("pf {n} reduce {}", big_hex(&BigUint::from(lo))), &hx(&F::from(lo)));
             let w = ((hi as u128) << 64) | lo as u128;
-            ctx.case("from_u128", nt, &format!("pf {n} reduce {}", big_hex(&BigUint::from(w))), &hx(&F::from_u128(w)));
+            from_u128_case::<F>(ctx, nt, w);
         }
     }
     ctx.case("from_u64", false, &format!("pf {n} reduce 0x{:x}", u64::MAX), &hx(&F::from(u64::MAX)));
-    ctx.case("from_u128", false, &format!("pf {n} reduce 0x{:x}", u128::MAX), &hx(&F::from_u128(u128::MAX)));
+    from_u128_case::<F>(ctx, false, u128::MAX);
 
     // binary: all pairs of classes
     for ((ca, va), a) in cls.iter().zip(&els) {
